@@ -374,6 +374,20 @@ func perturbations(a any, keys []string) []pert {
 				add("nullabsent", loc, "drop-null-member", edit(a, loc, "del", nil))
 			} else {
 				add("member-", loc, "remove-member:"+k, edit(a, loc, "del", nil))
+				// rename: the member moves to a key the object does not have (same
+				// member count, different key set), with the same and with another value
+				if pm, ok := parent.(map[string]any); ok {
+					nk := "z"
+					for _, kk := range keys {
+						if _, has := pm[kk]; !has {
+							nk = kk
+							break
+						}
+					}
+					ploc := append([]any{}, loc[:len(loc)-1]...)
+					add("rename", loc, "rename-member:"+k, edit(edit(a, loc, "del", nil), ext(ploc, nk), "ins", v))
+					add("rename", loc, "rename-member-to-null:"+k, edit(edit(a, loc, "del", nil), ext(ploc, nk), "ins", nil))
+				}
 			}
 		case []any:
 			add("elem-", loc, "remove-elem:"+posName(idx, plen), edit(a, loc, "del", nil))
